@@ -33,6 +33,17 @@ add("C03", "As C01 for the enumerate-and-check stable variants (plain, prefilter
     "TLC also proves the implementation's all-positions stability test equal to the textbook definition on all small ADFs.", SEM_NOTE,
     "TLA+ definitional semantics + TLC trace validation; TLC model checking of the algorithm transcription", "6/C03")
 
+add("C04", "TLC checks the transcription of two_val_model_counts_logic (CountSearch.tla, both heuristics) against the definition of stable "
+    "models for all 256 two-statement ADFs (thorough: 4394 three-statement cases) and judges every observed answer of "
+    "stable_count_optimisation_heu_{a,b} on native/hybrid objects. --selftest shows the unrepaired transcription rediscovers the lost-model defect.",
+    SEM_NOTE, "TLA+ transcription of the counting search model-checked against the definition; TLC trace validation of recorded answers", "6/C04")
+add("C05", "NgSearch.tla models nogood_internal with a nondeterministic heuristic (= every contract-abiding custom heuristic): TLC proves "
+    "exactness, stack synchrony, a step bound and (under fairness) termination for all two-statement ADFs (thorough: 512 three-statement ADFs). "
+    "On the code side every built-in heuristic, Rand under several seeds, scripted custom heuristics and the channel variants are run, and the REAL "
+    "choice tree of the search is enumerated path by path for all ADFs with <= 2 and a quarter of those with 3 statements; TLC judges every answer.",
+    SEM_NOTE + " Termination on the code side is a 20 s wall-clock budget per call plus a heuristic-call budget of 4*3^n+16.",
+    "TLA+ state machine of the learning loop model-checked (safety + liveness); exhaustive choice-tree replay on the real code; TLC trace validation", "6/C05")
+
 def main():
     hooks = subprocess.run(["git", "-C", "/repo", "log", "--format=%H %s"], stdout=subprocess.PIPE, text=True).stdout.splitlines()
     hook_commits = [l.split()[0] for l in hooks if " verif hook" in l]
